@@ -11,6 +11,7 @@ view name (defined, empty, undefined) and value the stub returns, the JSON on th
 goa-view header and the value the client hands back are compared with drv_views `projv` applied to
 the same value; responses re-labelled with an undefined view must be refused by the client."""
 import json
+import re
 import os
 import shutil
 import subprocess
@@ -108,6 +109,23 @@ def apply_shape(sh, v):
 
 # never a zero value: a required attribute outside the view comes back as the zero value of its Go field, which is how "unset" looks there
 PRIM_SAMPLES = {"String": ["abc", "x y"], "Int": [7, 3], "Boolean": [True, True], "Float64": [1.5, 0.25], "Int64": [123456789012, 5], "UInt32": [40000, 9]}
+
+
+def self_view_differs(design):
+    """some result type refers to itself and one of its views renders that attribute with another view than itself"""
+    for t in design.get("types", []):
+        if t.get("kind") != "result":
+            continue
+        fields = {f["name"]: f["att"] for f in ((t.get("att") or {}).get("type") or {}).get("object") or []}
+        for v in t.get("views") or []:
+            for vf in v.get("attrs") or []:
+                att = fields.get(vf["name"]) or {}
+                ty = att.get("type") or {}
+                if (ty.get("ref") or ty.get("collection")) == t["name"]:
+                    w = vf.get("view") or att.get("view") or "default"
+                    if w != v["name"]:
+                        return True
+    return False
 
 
 def make_value(design, att, full, salt, depth=0):
@@ -215,7 +233,11 @@ def run(c):
         if b.error:
             if not b.error.startswith("rejected"):
                 c.hist("build", "failed")
-                c.fail("c08/build:" + ("redeclared" if "redeclared" in b.error else "other"),
+                # the recorded defect needs a result type that refers to itself and renders that attribute with ANOTHER view than
+                # the enclosing one; any other build failure is not covered by it
+                kind = ("redeclared" if "redeclared" in b.error else "other") if self_view_differs(b.design) else \
+                    "unexpected: " + re.sub(r"\b[A-Z]\w*\d+\b", "T", (re.findall(r"\.go:\d+:\d+: (.*)", b.error) or [b.error[-80:]])[0])[:80]
+                c.fail("c08/build:" + kind,
                        "design %d with result views could not be generated/built: %s" % (b.index, b.error[-400:]),
                        input={"seed": c.seed, "index": b.index}, design=b.design)
             continue
